@@ -648,8 +648,10 @@ func ParseContractText(path, text string) ([]*Contract, error) {
 				return nil, fmt.Errorf("%s:%d: %v", path, ln+1, err)
 			}
 			cl.E = e
-		case "guard":
+		case "guard", "guard_if_called":
 			// guard [label] <callee-pattern> : <expr>   — F6: every call to callee is reached only under expr
+			// (guard_if_called: the same, but the callee need not be called at all -- for "whoever
+			// calls this must first …" clauses that today's code satisfies by not calling it)
 			rest = parseLabel(rest, &cl)
 			i := strings.Index(rest, ":")
 			if i < 0 {
